@@ -11,8 +11,9 @@
      chain_operator.py    simplify, make, _flip_modes, apply, capability
    for operators that all live on ONE domain (so SumOperator.simplify has a single
    (domain,target) group and all domain identity checks pass).  Not modelled here (covered only by
-   the direct oracle of the check): NullOperator, BlockDiagonalOperator, SandwichOperator,
-   MultiDomain sums, device placement, sampling (C13).
+   the direct oracle of the check): BlockDiagonalOperator, MultiDomain sums, device placement,
+   sampling (C13).  NullOperator is the library leaf with the reserved id [null_id] and capability
+   TIMES|ADJOINT_TIMES; ChainOperator.simplify collapses every chain containing one.
 
    Vectors are index functions nat -> T: equality in theorems is pointwise, so no functional
    extensionality is needed.  Scalars live in an arbitrary structure [arith] WITHOUT laws. *)
@@ -93,6 +94,15 @@ Definition actual_diag (d : vec) (tr : Z) : vec :=
 
 Definition is_diag (o : op) : bool := match o with Diag _ _ _ => true | _ => false end.
 Definition is_scal (o : op) : bool := match o with Scal _ _ => true | _ => false end.
+
+(* NullOperator(domain, target): self._capability = self.TIMES | self.ADJOINT_TIMES; apply returns
+   the zero field (the leaf family is assumed to map [null_id] to the zero map in the theorems, and
+   the correspondence passes no matrix for it, which evaluates to zero). *)
+Definition null_id : nat := 99.
+Definition null_cap : Z := Z.lor t_TIMES t_ADJOINT_TIMES.
+Definition null_op : op := Leaf null_id null_cap.
+Definition is_null (o : op) : bool :=        (* isinstance(op, NullOperator) *)
+  match o with Leaf l cp => Nat.eqb l null_id && Z.eqb cp null_cap | _ => false end.
 
 (* ScalingOperator.isIdentity; every other operator: False *)
 Definition isIdentity (o : op) : bool :=
@@ -178,8 +188,8 @@ Fixpoint combine_prod (ops : list op) (acc : list op) : list op :=   (* acc is o
   | o :: t => combine_prod t (o :: acc)
   end.
 
-(* the part of ChainOperator.simplify after the two early returns *)
-Definition chain_general (ops : list op) : list op :=
+(* the part of ChainOperator.simplify after the two early returns, when no NullOperator occurs *)
+Definition chain_nonull (ops : list op) : list op :=
   let ops1 := unpack_chain ops in
   let '(fct, ops2) := collect_chain_scal ops1 (one A) in
   let '(fct', ops3) :=
@@ -190,6 +200,11 @@ Definition chain_general (ops : list op) : list op :=
     if negb (eqb A fct' (one A)) || (match ops3 with [] => true | _ => false end)
     then ops3 ++ [Scal fct' None] else ops3 in
   combine_prod ops4 [].
+
+(* if any(isinstance(op, NullOperator) for op in ops): ops = (NullOperator(ops[-1].domain, ops[0].target),)
+   (tested on the unpacked list; the remaining steps leave a single NullOperator unchanged) *)
+Definition chain_general (ops : list op) : list op :=
+  if existsb is_null (unpack_chain ops) then [null_op] else chain_nonull ops.
 
 Definition chain_simplify (ops : list op) : list op :=
   match ops with
